@@ -40,7 +40,10 @@ ASSUMPTIONS = [
     "(defaults store_idx1/store_idx2/store_dist; calls with other store fields or another feature are outside the quantifier)",
     "entry and exit lists are paired BY ROW: row k of both lists is the same particle (cryoCAT takes the entry row and the exit site at the "
     "same position inside each tomogram subset, and looks the subtomo_id of an EXIT row up among traced ENTRY rows in add_chain_suffix), "
-    "so in-domain inputs have equal subtomo_id and tomo_id row by row; subtomo_ids are unique over the list; pandas index labels are unique",
+    "so in-domain inputs have equal subtomo_id and tomo_id row by row; subtomo_ids are unique over the list; pandas index labels are unique "
+    "(observation, outside the quantifier by the lead's ruling: Motl inputs whose index carries DUPLICATE labels, e.g. Motl(pd.concat([a.df, b.df])), "
+    "make trace_chains raise ValueError in its label lookups `motl.df.loc[motl.df.index[k], 'subtomo_id']`; permuted, reversed, gapped and "
+    "string-label indexes are handled and are generated)",
     "site = (x+shift_x, y+shift_y, z+shift_z) of the respective list; distance = Euclidean norm in float64; tolerance 1e-9 on the recorded value",
     "inputs with any candidate exit->entry distance (same tomogram, different particles) within 1e-6 of min_distance or max_distance are "
     "regenerated (generator) / counted out of domain (monitor uses 1e-9); ties between candidates are NOT excluded (the clauses do not depend "
@@ -425,6 +428,8 @@ def g_tail_cut(sc, v, f1_end, f2_end):
     d3a, d3b = sc.frac(0.85, 0.98), sc.frac(0.6, 0.75)
     if v % 8 == 5:                                # the later partner is the farther one: tail kept, F2 refused (not last, not better)
         d3a, d3b = d3b, d3a
+    if v % 8 == 7:                                # L farther than P: no cut, P keeps Y, both late suitors are refused
+        d1, d2 = d2, d1
     u = _rand_unit(rng)
     bef, aft = sc.through(np.zeros(3), u, h + 1, t, d1)
     P = bef[-1]
@@ -437,7 +442,7 @@ def g_tail_cut(sc, v, f1_end, f2_end):
         F = sc.attach_out(P, d3, -np.cos(th) * u + np.sin(th) * w, f, body=w)   # entry behind P's exit, body running away sideways
         other = _meet(sc, v, F, w, end) if end != "none" else []
         rows = (other + rows + F) if (other and (v // 2) % 2) else (rows + other + F)
-    return rows, "tailcut-%s-%s/h%df%d%d%s" % (f1_end, f2_end, h, lens[0], lens[1], "/kept" if v % 8 == 5 else "")
+    return rows, "tailcut-%s-%s/h%df%d%d%s" % (f1_end, f2_end, h, lens[0], lens[1], "/kept" if v % 8 == 5 else "/nocut" if v % 8 == 7 else "")
 
 
 def g_same_target(sc, v):
